@@ -180,7 +180,11 @@ func (env *Env) evalCall(x *ast.CallExpr, st *State) Val {
 					// called("send:ch") / called("recv:ch"): channel operations (see chanOp)
 					want, _ = strconv.Unquote(bl.Value)
 				}
-				for _, p := range st.calls {
+				base := env.callBase
+				if base > len(st.calls) {
+					base = len(st.calls)
+				}
+				for _, p := range st.calls[base:] {
 					if want != "" && p == want {
 						return boolVal("true")
 					}
@@ -228,6 +232,10 @@ func (env *Env) evalCall(x *ast.CallExpr, st *State) Val {
 			case "same":
 				a := env.eval(x.Args[0], st)
 				b := env.eval(x.Args[1], st)
+				if ab, ok := a.Ty.(*types.Basic); ok && ab.Kind() == types.UntypedNil && b.Ty != nil {
+					// same(nil, x): the literal nil takes the type of the other side
+					a = env.coerce(a, b.Ty, st)
+				}
 				return boolVal(eq(a.T, env.coerce(b, a.Ty, st).T))
 			case "has":
 				m := env.eval(x.Args[0], st)
